@@ -49,3 +49,25 @@ func init() {
 func init() {
 	reg(&propCfg{ID: "TT", Pkgs: []string{"tax"}, Lenient: []string{"tax", "num", "cal"}, Stages: []stage{{Name: "t", Harness: `^H_T_dbg`}}, Bounds: map[string][]string{}})
 }
+
+func init() {
+	reg(&propCfg{
+		ID:      "C20",
+		Pkgs:    []string{"tax", "bill"},
+		Lenient: []string{"tax", "num", "cal", "bill", "org", "currency", "cbc"},
+		Stages: []stage{
+			{Name: "L0", Harness: `^H_C05_L0_`},
+			{Name: "summaries", Harness: `^H_C20_(Merge|Negate|NoAliasing)`},
+			{Name: "payments", Harness: `^H_C20_Pay`, Subst: numSummaries, Needs: []string{"L0"}},
+		},
+		Functions: []string{"tax.(*Total).Merge", "tax.(*Total).Negate", "tax.(*Total).Clone", "tax.(*RateTotal).Matches", "tax.(*Total).round", "tax.Extensions.Equals", "num.Amount.Add/Negate",
+			"bill.(*Payment).calculate", "bill.(*PaymentLine).calculate", "org.(*DocumentRef).Calculate", "currency.Convert", "currency.MatchExchangeRate", "currency.(*ExchangeRate).Convert"},
+		Stubs: []string{"operands frozen: any store to a cell reachable from an operand is an event (engine) / a Dump difference (native replay)", "currency.Get: native registry import", "num.Amount.Rescale/Multiply/Divide replaced by proven summaries in the payment stage"},
+		Bounds: map[string][]string{
+			"quick":    {"two summaries: category VAT with 1..2 rate groups drawn from {21%, 10%+5.2% surcharge, 10%, exempt, 21% with extension, 10%+1.4% surcharge}, optional category surcharge, optional retained category; all amounts symbolic (|v| <= 2^40, 2 decimals)", "payments: <= 2 lines, debit/credit presence by choice, amounts symbolic, same or foreign currency with exchange rate"},
+			"thorough": {"same as quick"},
+		},
+		Outside:     []string{"summaries whose corresponding amounts carry different exponents (Add then rounds to the receiver's precision by contract)", "more than two groups per category, more than two categories"},
+		Assumptions: []string{"go/ssa faithful; z3 sound"},
+	})
+}
